@@ -25,19 +25,36 @@ func init() { register("C18", "exploration", checkC18) }
 // Replicas with an odd index execute every transaction (and every validator-set block end) first on a throw-away
 // branch, as CheckTx / simulation / an aborted block execution would; even ones do not. The committed history is the
 // same, so everything observable must be the same: nothing may depend on prior process history.
+// replicaMode: how a replica's process differs from replica 0's (never what it executes): spec = every transaction and
+// other activity first run on discarded branches; restartEvery = the node process restarts before every n-th transaction.
+type replicaMode struct {
+	spec         bool
+	restartEvery int
+}
+
+func modeOf(i int) replicaMode {
+	m := replicaMode{spec: i%2 == 1}
+	if i%4 >= 2 {
+		m.restartEvery = 3 + i%5
+	}
+	return m
+}
+
 type c18History struct {
 	name string
-	f    func(seed uint64, steps int, spec bool) (transcript []string, orderSensitive int)
+	f    func(seed uint64, steps int, mode replicaMode) (transcript []string, orderSensitive int)
 }
 
 func scratchRun() *mon.Run { return mon.NewRun("C18-scratch", "quick", 0, "exploration") }
 
-func histTwoChain(seed uint64, steps int, spec bool) ([]string, int) {
+func histTwoChain(seed uint64, steps int, mode replicaMode) ([]string, int) {
+	spec := mode.spec
 	rr := mon.NewRand(seed)
 	t1, t2 := &sim.Transcript{}, &sim.Transcript{}
 	w := &c08World{run: scratchRun(), rng: rr, tc: newTwoChain(4*time.Second, L2EnvOpts{}), denoms: []string{"uinit", "uusdc"}, feat: map[string]int{}, initial: map[string]*big.Int{"uinit": new(big.Int), "uusdc": new(big.Int)}}
 	w.tc.L1.L1.T, w.tc.L2.L2.T = t1, t2
 	w.tc.L1.L1.Speculate, w.tc.L2.L2.Speculate = spec, spec
+	w.tc.L1.L1.RestartEvery, w.tc.L2.L2.RestartEvery = mode.restartEvery, mode.restartEvery
 	if spec {
 		w.tc.L1.EnableShadow(seed)
 		w.tc.L2.EnableShadow(seed)
@@ -87,7 +104,8 @@ func histTwoChain(seed uint64, steps int, spec bool) ([]string, int) {
 	return out, multi + 2
 }
 
-func histValidators(seed uint64, steps int, spec bool) ([]string, int) {
+func histValidators(seed uint64, steps int, mode replicaMode) ([]string, int) {
+	spec := mode.spec
 	rng := mon.NewRand(seed)
 	t := &sim.Transcript{}
 	gen := []ValKey{NewValKey(1), NewValKey(2), NewValKey(3)}
@@ -95,6 +113,7 @@ func histValidators(seed uint64, steps int, spec bool) ([]string, int) {
 	l2 := w.e.L2
 	l2.T = t
 	l2.Speculate = spec
+	l2.RestartEvery = mode.restartEvery
 	w.specBlocks = spec
 	if spec {
 		w.e.EnableShadow(seed)
@@ -179,12 +198,14 @@ func histValidators(seed uint64, steps int, spec bool) ([]string, int) {
 	return t.Lines, sensitive
 }
 
-func histOracle(seed uint64, steps int, spec bool) ([]string, int) {
+func histOracle(seed uint64, steps int, mode replicaMode) ([]string, int) {
+	spec := mode.spec
 	rng := mon.NewRand(seed)
 	t := &sim.Transcript{}
 	o := newOracleEnv([]int64{10, 9, 8, 7, 6, 5, 4}, []string{"BTC/USD", "ETH/USD", "ATOM/USD", "SOL/USD", "INIT/USD", "TIA/USD"})
 	o.L2.T = t
 	o.L2.Speculate = spec
+	o.L2.RestartEvery = mode.restartEvery
 	c := &c15{run: scratchRun()}
 	ts := int64(1_700_000_000_000_000_000)
 	var log []string
@@ -227,12 +248,14 @@ var c18WallAnchor atomic.Int64
 // histOracleClock: oracle updates whose agreed L1 timestamps lie shortly before and after the moment the replicas run.
 // The replicas of a group are started 0.8 s apart, so each of them executes the same messages at a different distance
 // from those timestamps; whatever they answer must not depend on it.
-func histOracleClock(seed uint64, steps int, spec bool) ([]string, int) {
+func histOracleClock(seed uint64, steps int, mode replicaMode) ([]string, int) {
+	spec := mode.spec
 	rng := mon.NewRand(seed)
 	t := &sim.Transcript{}
 	o := newOracleEnv([]int64{10, 9, 8, 7}, []string{"BTC/USD", "ETH/USD", "ATOM/USD"})
 	o.L2.T = t
 	o.L2.Speculate = spec
+	o.L2.RestartEvery = mode.restartEvery
 	c := &c15{run: scratchRun()}
 	anchor := c18WallAnchor.Load()
 	var log []string
@@ -258,12 +281,14 @@ func histOracleClock(seed uint64, steps int, spec bool) ([]string, int) {
 	return t.Lines, n
 }
 
-func histL1World(seed uint64, steps int, spec bool) ([]string, int) {
+func histL1World(seed uint64, steps int, mode replicaMode) ([]string, int) {
+	spec := mode.spec
 	t := &sim.Transcript{}
 	cfg := WorldCfg{Bridges: 4, Steps: steps, Periods: []time.Duration{time.Second, 3 * time.Second, 2 * time.Second, 10 * time.Second}}
 	w := newL1World(scratchRun(), mon.NewRand(seed), MonSet{}, cfg)
 	w.env.L1.T = t
 	w.env.L1.Speculate = spec
+	w.env.L1.RestartEvery = mode.restartEvery
 	w.env.L1.Shadow = nil
 	if spec {
 		w.env.EnableShadow(seed)
@@ -282,12 +307,14 @@ func histL1World(seed uint64, steps int, spec bool) ([]string, int) {
 
 // histPermHook: bridges with permissioned-channel metadata over channels that are missing / in use / taken, so that
 // several listed channels are unusable for different reasons and error identity depends on the order of checks.
-func histPermHook(seed uint64, steps int, spec bool) ([]string, int) {
+func histPermHook(seed uint64, steps int, mode replicaMode) ([]string, int) {
+	spec := mode.spec
 	r := mon.NewRand(seed)
 	t := &sim.Transcript{}
 	w := &c19World{run: scratchRun(), rng: r, env: newL1Env(0, nil), metadata: map[uint64][]byte{}, feat: map[string]int{}}
 	w.env.L1.T = t
 	w.env.L1.Speculate = spec
+	w.env.L1.RestartEvery = mode.restartEvery
 	w.env.L1.Shadow = nil
 	if spec {
 		w.env.EnableShadow(seed)
@@ -345,7 +372,7 @@ func checkC18(run *mon.Run, rng *mon.Rand, thorough bool) {
 				if h.name == "oracle-clock" && i > 0 {
 					time.Sleep(800 * time.Millisecond) // workload spacing only; no verdict depends on it
 				}
-				transcripts[i], sens[i] = h.f(seed, steps, i%2 == 1)
+				transcripts[i], sens[i] = h.f(seed, steps, modeOf(i))
 				run.Evaluations++
 			}
 			// second half concurrently
@@ -354,7 +381,7 @@ func checkC18(run *mon.Run, rng *mon.Rand, thorough bool) {
 				wg.Add(1)
 				go func(i int) {
 					defer wg.Done()
-					transcripts[i], sens[i] = h.f(seed, steps, i%2 == 1)
+					transcripts[i], sens[i] = h.f(seed, steps, modeOf(i))
 				}(i)
 			}
 			wg.Wait()
